@@ -1,7 +1,7 @@
 (** C05/C06/C07 — comparison of implementation observations with the model (run by the checks).
     The byte codecs enter as tables computed by the harness with the real functions
     (bincode for records and snapshots, crc32fast for checksums). *)
-From GV Require Export Wal.Classes.
+From GV Require Export Wal.Classes Wal.Codec.
 From Coq Require Export Uint63.
 Open Scope Z_scope.
 
@@ -217,3 +217,45 @@ Definition chk_pre_synced (t : tabs) (cfg : wcfg) (ss : list session) (seq n : Z
   | Some f => f_synced f =? n
   | None => false
   end.
+
+(** * (0) the concrete codecs of Wal/Codec.v against the real functions: every table entry of a
+    run (bincode bytes and CRC-32 of every record written, decoding of every payload read),
+    decoding of damaged record payloads, snapshot bytes, checkpoint metadata bytes *)
+Definition chk_enc (r : record) (bs : bytes) (c : Z) : bool := zlist_eqb (enc_record r) bs && (crc32 bs =? c).
+Definition chk_dec (bs : bytes) (o : option record) : bool := option_eqb record_eqb (dec_record_slice bs) o.
+Definition chk_tabs (t : tabs) : bool :=
+  forallb (fun e => chk_enc (fst (fst e)) (snd (fst e)) (snd e) && chk_dec (snd (fst e)) (Some (fst (fst e)))) (tb_enc t)
+  && forallb (fun e => chk_dec (fst e) (Some (snd e))) (tb_dec t)
+  && forallb (fun e => crc32 (fst e) =? snd e) (tb_crc t).
+Definition show_dec (bs : bytes) := dec_record_slice bs.
+
+Definition props_exact_eqb : props -> props -> bool := list_eqb prop_eqb.
+Definition dnode_exact_eqb (a b : dnode) : bool :=
+  let '(i, l, p) := a in let '(j, m, q) := b in (i =? j) && list_eqb str_eqb l m && props_exact_eqb p q.
+Definition dedge_exact_eqb (a b : dedge) : bool :=
+  let '(i, s, d, t, p) := a in let '(j, s', d', t', q) := b in
+  (i =? j) && (s =? s') && (d =? d') && str_eqb t t' && props_exact_eqb p q.
+Definition snap_exact_eqb (a b : snapshot) : bool :=
+  (sn_version a =? sn_version b) && list_eqb dnode_exact_eqb (sn_nodes a) (sn_nodes b)
+  && list_eqb dedge_exact_eqb (sn_edges a) (sn_edges b).
+Definition dsnap_eqb (a b : option (snapshot * nat)) : bool :=
+  option_eqb (fun x y => snap_exact_eqb (fst x) (fst y) && (snd x =? snd y)%nat) a b.
+(** [bs]: bytes handed to [import_snapshot]; [d]: what the real decoder makes of them; [o]: the
+    observed result.  The model decodes the bytes itself. *)
+Definition chk_import_bytes (bs : bytes) (d : option (snapshot * nat)) (o : cobs) : bool :=
+  dsnap_eqb (dec_snapshot bs) d
+  && match import dec_snapshot bs, o with
+     | IErr, CErr => true
+     | IPanic, CPanic => true
+     | IOk m, COk _ _ _ _ => chk_copy m o
+     | _, _ => false
+     end.
+(** the exported bytes are the model's encoding of the enumeration the export made *)
+Definition chk_export_bytes (sn : snapshot) (bs : bytes) : bool :=
+  zlist_eqb (enc_snapshot sn) bs && dsnap_eqb (dec_snapshot bs) (Some (sn, length bs)).
+Definition kc07_2 (bs : bytes) : bool :=
+  match dec_snapshot bs with Some (_, n) => k07_2 bs n | None => false end.
+Definition kc07_3 (bs : bytes) : bool :=
+  match dec_snapshot bs with Some (sn, _) => k07_3 sn | None => false end.
+(** checkpoint.meta: bytes on disk against what the harness decoded *)
+Definition chk_meta (o : option bytes) (m : metafile) : bool := meta_eqb (metafile_of o) m.
